@@ -76,7 +76,7 @@ type Ctx struct {
 	skip       string
 	fail       *Failure
 	family     string // signature given to any failure of this execution (see Failure.Sig)
-	costly     bool // one execution costs seconds (a subprocess): replay twice instead of five times, do not shrink
+	costly     bool   // one execution costs seconds (a subprocess): replay twice instead of five times, do not shrink
 	Tier       string
 }
 
@@ -236,21 +236,24 @@ type Config struct {
 }
 
 // Result of one exploration (one worker).
+const maxDigests = 6000000
+
 type Result struct {
-	Execs       int64
-	Transitions int64
-	Points      int64
-	States      map[uint64]struct{}
-	Nontrivial  map[uint64]struct{}
-	Skipped     map[string]int64
-	Failing     int64
-	Violations  []*Violation
-	Samples     []string
-	Exhaustive  bool
-	CapHit      string
-	Internal    string // non-empty: internal error (divergence, nondeterminism)
-	MaxDevs     int
-	ShrinkExecs int64
+	DigestsCapped bool
+	Execs         int64
+	Transitions   int64
+	Points        int64
+	States        map[uint64]struct{}
+	Nontrivial    map[uint64]struct{}
+	Skipped       map[string]int64
+	Failing       int64
+	Violations    []*Violation
+	Samples       []string
+	Exhaustive    bool
+	CapHit        string
+	Internal      string // non-empty: internal error (divergence, nondeterminism)
+	MaxDevs       int
+	ShrinkExecs   int64
 }
 
 type runOut struct {
@@ -326,11 +329,20 @@ func Explore(cfg Config, body func(*Ctx)) (res *Result) {
 				res.MaxDevs = c.devUsed
 			}
 			d := c.digest()
-			res.States[d] = struct{}{}
+			// the digest sets only feed the "distinct" figures of the evidence; beyond maxDigests
+			// entries per worker they stop growing (the figures are then lower bounds), so that a
+			// deep tier cannot exhaust memory
+			if len(res.States) < maxDigests {
+				res.States[d] = struct{}{}
+			} else {
+				res.DigestsCapped = true
+			}
 			if c.skip != "" {
 				res.Skipped[c.skip]++
 			} else if c.nontrivial {
-				res.Nontrivial[d] = struct{}{}
+				if len(res.Nontrivial) < maxDigests {
+					res.Nontrivial[d] = struct{}{}
+				}
 			}
 			if c.fail == nil && c.skip == "" && len(res.Samples) < cfg.Samples && res.Execs%sampleEvery == 0 {
 				if s := c.caseString(); s != "" {
